@@ -92,6 +92,16 @@ SUMMARY = {
  'C16-agent9': 'block size for rate-limited transfers refactored with min() instead of max(): below 16 x concurrency bytes/s the S3 body is empty under a full-payload hash',
  'C17-agent9': 'key files created with os.open(O_WRONLY | O_CREAT) without O_TRUNC: a shorter key over a longer file leaves a stale tail',
  'C20-agent9': 'pauses capped at 20 ms when called on a thread with a running event loop: with concurrency <= 3 the debt hits the cap and is forgiven',
+ 'C02-agent10': 'Local.upload_stream rewinds only if stream.seekable(): the rate-limited wrapper reports False, a retried copy stores the tail only',
+ 'C03-agent10': 'requires_auth: bounded re-authentication loop falls off its end and returns None instead of raising (B2 call "succeeds" without doing its work)',
+ 'C05-agent10': 'CLI log records routed through tqdm.write (stdout) instead of stderr: with -v / -vv passwords and the unencrypted private section land next to the key',
+ 'C07-agent10': 'read block of snapshot = min(concurrency x 4 MiB, 16 MiB): tail cuts of the same data differ between concurrency settings',
+ 'C08-agent10': 'listings advanced in batches of 10 000 through zip(iterator, range(n)): each full batch swallows one entry',
+ 'C09-agent10': 'producer settles repeated chunks itself, calling _chunk_done from the producer thread: racing creation of the per-file manifest entry',
+ 'C12-agent10': 'S3 upload_stream: after a transport error a HEAD with the same Content-Length counts as success (same length is not same bytes)',
+ 'C13-agent10': 'B2 error bodies only read when DEBUG logging is on: delete of a missing name dies with httpx.ResponseNotRead',
+ 'C14-agent10': 'zero-length ranges neither written nor restored: an empty file recorded with a [0,0] range is never created',
+ 'C18-agent10': 'cache entry hashed from one read and used from a second, unverified read: a concurrent writer truncating the entry in between',
  'C20-agent1': 'transfer block size floor of 16000 bytes: below 32 kB/s each block owes more than the capped debt',
 }
 rows = []
